@@ -1084,7 +1084,6 @@ func c07IntParam(e *Expr) bool {
 	return ok && bt.Info()&types.IsInteger != 0
 }
 
-
 // c07GoodReturnsGuarded: every path of fn that can return a "good" value in
 // result #idx (possibly true for bool, possibly nil for error/pointer) crossed
 // one of bars — directly, through a helper (lifting, depth-limited), or by
